@@ -207,10 +207,73 @@ for (idle, udp), r in zip(TCASES, run_parallel(TCASES, timing, workers=6)):
             chk.violation('timeout.timing', 'huge-period-closes-early:udp', f'udp={udp} s: session gone after {r["udp_gone"]:.2f}s', replay)
     samples.append(replay)
 
+
+# ---- the idle period belongs to the tunnel: a set-up (client handshake, upstream connect / handshake) that takes longer
+#      than the period must not make the freshly established tunnel count as idle already
+SETUP_T, SETUP_DELAY = 2, 3.0
+def slow_setup(kind):
+    up = Origin(fake_http_proxy)
+    hp, sp, ap = free_port(), free_port(), free_port()
+    cfg = {'listeners': [{'name': 'http', 'bind': f'127.0.0.1:{hp}'}, {'name': 'socks', 'bind': f'127.0.0.1:{sp}'}],
+           'connectors': [{'name': 'direct'}, {'name': 'h', 'type': 'http', 'server': '127.0.0.1', 'port': up.port}],
+           'rules': [{'filter': 'request.target.host =~ "late-"', 'target': 'h'}, {'target': 'direct'}],
+           'timeouts': {'idle': SETUP_T, 'udp': SETUP_T}, 'metrics': {'bind': f'127.0.0.1:{ap}', 'ui': None}}
+    px = Proxy(cfg, 'c13s')
+    px.api_port = ap
+    if not px.start([hp, sp, ap]):
+        return {'error': px.log()[-300:]}
+    try:
+        if kind == 'socks5 client pauses inside its request':
+            s = socket.create_connection(('127.0.0.1', sp), timeout=5)
+            s.sendall(b'\x05\x01\x00')
+            if recv_exact(s, 2, 3) != b'\x05\x00':
+                return {'error': 'method selection'}
+            req = b'\x05\x01\x00' + socks5_addr('127.0.0.1', echo.port)
+            s.sendall(req[:5]); time.sleep(SETUP_DELAY); s.sendall(req[5:])
+            rep = recv_exact(s, 10, 5)
+            ok = rep is not None and len(rep) == 10 and rep[1] == 0
+        elif kind == 'http client pauses inside its request head':
+            s = socket.create_connection(('127.0.0.1', hp), timeout=5)
+            s.sendall(f'CONNECT 127.0.0.1:{echo.port} HTTP/1.1\r\nHost: x'.encode()); time.sleep(SETUP_DELAY); s.sendall(b'\r\n\r\n')
+            head, rest = recv_head(s, 5)
+            ok = head.startswith(b'HTTP/1.1 200')
+        else:  # the upstream proxy takes its time to answer
+            s, code, head, rest = http_connect(hp, f'late-{SETUP_DELAY:.0f}.test:80', timeout=SETUP_DELAY + 5)
+            ok = code == 200
+        if not ok:
+            return {'error': f'{kind}: tunnel not established'}
+        t0 = time.time()
+        s.settimeout(SETUP_T + 1 + 3.0)
+        try:
+            d = s.recv(100)
+            closed = time.time() - t0 if d == b'' else None
+            extra = d
+        except socket.timeout:
+            closed, extra = None, b''
+        except OSError:
+            closed, extra = time.time() - t0, b''
+        s.close()
+        return {'closed_after_established_s': closed, 'unexpected_bytes': len(extra)}
+    finally:
+        px.stop(); up.stop()
+
+SETUPS = ['socks5 client pauses inside its request', 'http client pauses inside its request head', 'upstream proxy answers late']
+for kind, r in zip(SETUPS, run_parallel(SETUPS, slow_setup, workers=3)):
+    evals += 1
+    if isinstance(r, tuple) or 'error' in r:
+        machinery(f'slow set-up {kind}: {r}')
+    c = r['closed_after_established_s']
+    replay = {'timeouts': {'idle': SETUP_T}, 'set_up_takes_s': SETUP_DELAY, 'case': kind, 'observed': r}
+    distinct.add(('slow-setup', kind, c is not None and c < SETUP_T - 0.05))
+    if c is None:
+        chk.violation('timeout.timing', 'silent-tcp-tunnel-not-closed-in-time:after-slow-set-up', f'idle={SETUP_T}: {kind}: silent tunnel still open {SETUP_T + 4} s after it was established', replay)
+    elif c < SETUP_T - 0.05:
+        chk.violation('timeout.timing', f'fresh-tunnel-closed-for-idleness:{kind}', f'idle={SETUP_T}, set-up took {SETUP_DELAY} s: the tunnel was closed {c:.2f} s after the client was told it is established', replay)
+    samples.append(replay)
 echo.stop(); uecho.close()
 if evals < 30 or len(distinct) < 3:
     machinery(f'vacuous: evals={evals} distinct={len(distinct)}')
 cov = {'evaluations': evals, 'distinct_nontrivial': len(distinct), 'transitions': evals, 'traces_validated_against_impl': evals,
-       'rule': 'real binary: timeouts.idle x timeouts.udp grid (16 cells) x 6 tunnel kinds, idle_timeout reported by /api/live vs configured/default; close timing of silent tcp and udp tunnels with T=2, T=0 and four periods whose millisecond count exceeds 64 bits',
+       'rule': 'real binary: timeouts.idle x timeouts.udp grid (16 cells) x 6 tunnel kinds, idle_timeout reported by /api/live vs configured/default; close timing of silent tcp and udp tunnels with T=2, T=0 and four periods whose millisecond count exceeds 64 bits; tunnels whose set-up (client handshake / upstream answer) takes longer than the period must get a whole period once established',
        'grid_cells': len(grid), 'tunnel_kinds': list(IS_UDP), 'schedule_control': 'kernel', 'samples': samples}
 sys.exit(chk.finish('model_checking', cov, ['E4 part: real clock; late bounds carry 1 s ticker (+1 s GC for the registry) + 2 s slack, early bounds 50 ms']))
